@@ -105,6 +105,21 @@ def gen_api(rng, inc_only=False, singleton=False):
     return s
 
 
+def gen_api_resetrace(rng):
+    """many counters, one thread resetting while others read all counters and bump two of them: a reset that is not one atomic
+    step (e.g. one lock acquisition per key) lets a reader see some counters zeroed and others not, which no sequential order
+    of the issued calls explains"""
+    nk = rng.choice([60, 120, 250])
+    keys = ["rr.%03d" % i for i in range(nk)]
+    init = [["set", k, rng.randint(1, 9)] for k in keys]
+    threads = [[rng.choice([["reset"], ["reset"], ["creset"]])] + [["get"]] * rng.randint(0, 1)]
+    for _ in range(rng.randint(1, 2)):
+        threads.append([["get"]] * rng.randint(2, 4))
+    threads.append([["inc", rng.choice(keys), 1], ["get"], ["inc", rng.choice(keys), 2]])
+    rng.shuffle(threads)
+    return {"kind": "api", "flavour": "tsan", "init": init, "threads": threads, "tag": "api-resetrace"}
+
+
 BIASED = [0x67, 0x72, 0x30, 0x0a, 0x00, 0x61, 0x7a, 0x20, 0xff, 0x7b]
 
 
@@ -160,6 +175,8 @@ def gen(rng, tier):
         yield gen_api(rng, inc_only=True)
     for _ in range(2 if tier == "quick" else 6):
         yield gen_api(rng, singleton=True)
+    for _ in range({"quick": 12, "thorough": 300, "search": 40}[tier]):
+        yield gen_api_resetrace(rng)
     yield {"kind": "uninit", "flavour": "tsan", "tag": "uninit"}
     # exhaustive small requests
     yield sess_scn("one-byte-eof", [{"hex": "", "end": "half"}] + [{"hex": hx([b]), "end": "half"} for b in range(256)])
